@@ -12,7 +12,8 @@ CASE_START = ("new", "parse", "soa")
 MANIFEST = dict(
     text="Lean 4 theorems over a code-shaped, fault-explicit executable model of Tins::DNS (constructor index "
          "computation, compose_name, convert_records, the four section getters, encode_domain_name, add_query, "
-         "add_record, update_records, update_dname, serialization): memory safety of getters and edits on every "
+         "add_record, update_records, update_dname, serialization, and the typed SOA accessor soa_record::init / decode_domain_name / "
+         "soa_record::serialize): memory safety of getters and edits on every "
          "object state, refinement of the four sections under any history of insertions, serialize/re-parse, "
          "pointer loops / out-of-range pointers rejected. Tied to the code by differential correspondence on random "
          "and exhaustive edit histories over fresh, reference-encoded (with and without compression) and hostile "
